@@ -93,6 +93,7 @@ func init() {
 			}
 			out := []Instance{
 				{Scenario: "c12_ends", Params: mustJSON(EndsParams{Depth: d}), Bound: 0, Shards: 8},
+				{Scenario: "reopen_life", Params: mustJSON(LifeParams{Oracle: "position", Segs: 2}), Bound: 0, Shards: 8, Note: "'re-opened from its latest settled position' over chains of transient ends with fail-overs / rollbacks and late acknowledgements of earlier segments"},
 				{Scenario: "c12_finite", Params: mustJSON(FiniteParams{}), Bound: b, Shards: 8},
 				{Scenario: "c12_finite", Params: mustJSON(FiniteParams{Empty: true}), Bound: b - 1, Shards: 8, Note: "one assigned vBucket has no events at all"},
 				{Scenario: "c12_finite", Params: mustJSON(FiniteParams{Latest: true}), Bound: b - 1, Shards: 4, Note: "finite mode with autoReset=latest and no checkpoint: start = end = high seqno, the run terminates at once"},
